@@ -309,7 +309,7 @@ def is_neutral(v, op, res_dtype):
     try:
         name = str(res_dtype).lower().replace("boolean", "bool")  # polars spells Int32 / UInt8 / Boolean
         dt = np.dtype(name)
-    except TypeError:
+    except (TypeError, ValueError):
         return False
     if dt.kind == "i" and v == np.iinfo(dt).min:
         return True
@@ -325,7 +325,7 @@ def dtype_kind(dtype_str):
     s = str(dtype_str)
     try:
         return np.dtype(s).kind
-    except TypeError:
+    except (TypeError, ValueError):
         pass
     low = s.lower()
     if low.startswith("datetime") or low.startswith("timestamp"):
